@@ -74,6 +74,10 @@ CHECKS = {
    "exhaustive input enumeration of the real codecs: all values x all <=3-piece read splits x all proper prefixes x hostile length fields, allocation measured in rlimit-ed worker subprocesses",
    "Every frame type with names {empty, a, 255 B, all byte values, 64 KiB} and six integer values, six position maps and 120 chunk writer/reader configurations around the 65535 limit are encoded by the real writers and decoded by the real readers under every split into at most three reads (complete for encodings up to 64 bytes, boundary-focused above) and one byte at a time; every proper prefix must be an error and never a clean EOF; every length field is replaced by five hostile values and the decoder's allocation must stay within 1 MiB + 64 x bytes received; ReadFullAt is run over every short-read/EOF script for buffers up to 4.",
    "Random byte strings are replaced by exhaustive families. Go runtime MemStats trusted for allocation measurement.", "§4 C18"),
+ "C20": ("model_checking", "E1-inputs",
+   "exhaustive request matrix sent over real loopback TCP (HTTP/1.1 and h2c) to the real API server of a primary, a replica and a node without a primary; node digest compared around every request",
+   "Every endpoint (/stream, /tx, /halt, /handoff, /promote, /import, /export, /info, /events, an unknown path) x 5 methods x {missing, empty, unknown, valid, misspelt} names x six id / lockID / nodeID spellings (missing, non-numeric, overflowing, negative, zero, valid) x own / foreign / malformed / absent Litefs-Id x {empty, garbage, valid, truncated, hostile-length} bodies, on each of three roles and both protocols, plus the /halt and /tx part again while another caller holds a halt lock: each request must get an HTTP response, log no panic, not stop the node, leave GET /info answering, and - when it is malformed, not allowed in the role or names a missing database/lock - leave databases, positions, logical images, LTX directory contents, the twelve lock tables and the halt lock exactly as before (a foreign caller's halt lock is never disturbed by a request that does not name it).",
+   "The one check on real sockets and real time: each request is a synchronous round trip on an otherwise idle node; bodies up to a few hundred bytes (allocation against hostile lengths is C18's). 'Invalid' follows the endpoint's own contract: POST /halt may create a database by design; any non-zero int64 is a well-formed lock id.", "§4 C20"),
  "C02": ("model_checking", "E1-programs",
    "exhaustive enumeration of rollback-journal pager programs executed on the real store through the FUSE handlers; every LTX decoded and applied to a reference image",
    "All single-transaction pager programs of the enumerated shape space (modified set x new size x spill points x sync mode x finalisation x outcome) from seven start sizes straddling the 256-page checksum blocks, and all chains of two (thorough: three) over a core of shapes, are executed; after each the position delta, the decoded LTX applied to the previous reference image, pre/post checksums, the tx event, the -pos file, the image read back through a page cache and the C04/C09 monitors are checked.",
